@@ -6,6 +6,7 @@ From PV Require Import Base.Bytes Base.Outcome Base.KV Compkey.Model Aol.Model A
 From PV Require Generated.GenNft.
 From PV Require Pagination.Model Pnft.Query.
 From PV Require Sign.Model.
+From PV Require Upgrade.Model Upgrade.Repo Generated.GenUpgrade.
 Import ListNotations.
 
 Record pending := {
@@ -847,6 +848,24 @@ Definition chain_cmd (st : dstate) (cmd : tok) (args : list tok) : option (dstat
     | Ok c' => Some (upd_versions (upd_chain st c') [c'] (d_base st + N.of_nat (length (d_versions st))), [b "X ok"])
     | Err _ _ => Some (st, [b "X invalid"])
     | Panic => Some (st, [b "X panic"])
+    end
+  else if tok_is cmd "UPROBE" then
+    (* C19: this binary started at the height of the k-th upgrade descriptor, on the disk left by the previous ones *)
+    match args with
+    | [k] =>
+        match parse_dec k with
+        | Some k' =>
+            let ups := Generated.GenUpgrade.upgrades in
+            match nth_error ups (N.to_nat k') with
+            | Some d =>
+                let disk := Upgrade.Model.upgrade_path Upgrade.Repo.baseline (firstn (N.to_nat k') ups) in
+                Some (st, [join_toks [b "U"; b "probe"; tok_of_bytes (b (Upgrade.Model.d_name d));
+                                      if Upgrade.Model.load_ok Generated.GenUpgrade.mounted_stores disk (Some d) then b "ok" else b "fail"]])
+            | None => Some (st, [b "U probe ? bad-index"])
+            end
+        | None => Some (st, bad)
+        end
+    | _ => Some (st, bad)
     end
   else if tok_is cmd "UPGRADE" then Some (st, [b "U scheduled"])   (* a software-upgrade plan: no custom-module state is involved *)
   else if tok_is cmd "ENDCHECK" then Some (upd_tx st None, [])     (* CheckTx / simulate: no effect on the committed or deliver state *)
